@@ -2,3 +2,5 @@ import TnVerif.Model.Basic
 import TnVerif.Model.Tensor
 import TnVerif.Model.Arith
 import TnVerif.Model.Eval
+import TnVerif.Generated
+import TnVerif.Props.C02
